@@ -40,6 +40,9 @@ theorem absSt_active {c : Conn} (h : c.state = st_ACTIVE) : (absConn c).st = .ac
 theorem absConn_e (c : Conn) : (absConn c).e = c.sess.nextIn := rfl
 theorem absConn_ini (c : Conn) : (absConn c).ini = (c.role == roleInitiator) := rfl
 
+theorem ne_Y_of_none {f : Msg} (h : f.get? tPossDupFlag = none) : f.get? tPossDupFlag ≠ some "Y" := by
+  rw [h]; exact fun hh => nomatch hh
+
 /-- close a case: rewrite `arecv` on the abstract frame to the value the case lemma talks about -/
 macro "arecv_case" h:term "using" "[" ts:Lean.Parser.Tactic.simpLemma,* "]" : tactic =>
   `(tactic| (have hh := $h
@@ -51,9 +54,12 @@ macro "arecv_case" h:term "using" "[" ts:Lean.Parser.Tactic.simpLemma,* "]" : ta
 theorem recv_sim_app {s : Side} {env : Env} {c : Conn} {f : Msg} {n : Int}
     (hc : ConnGood s c) (hs : c.sock = true) (hi : InFrame c f n) (hl3 : isLatin1 env.stamp = true)
     (hA : f.mtype ≠ mLogon) (h2 : f.mtype ≠ mResendRequest) (h4 : f.mtype ≠ mSequenceReset) (h5 : f.mtype ≠ mLogout)
-    (h0 : f.mtype ≠ mHeartbeat) (h1 : f.mtype ≠ mTestRequest)
-    (hpd : f.get? tPossDupFlag = none ∨ f.get? tPossDupFlag = some "Y") :
+    (h0 : f.mtype ≠ mHeartbeat) (h1 : f.mtype ≠ mTestRequest) :
     StepOK s (arecv (absConn c) (absFrame f)) (recv srAll env c f).1 (recv srAll env c f).2 := by
+  have hpd : f.get? tPossDupFlag ≠ some "Y" ∨ f.get? tPossDupFlag = some "Y" := by
+    by_cases h : f.get? tPossDupFlag = some "Y"
+    · exact Or.inr h
+    · exact Or.inl h
   have hframe : absFrame f = ⟨n, .app (payloadOf f) (f.get? tPossDupFlag == some "Y")⟩ := by
     have hk := absFrame_app hA h2 h4 h5
     have hsq := absFrame_seq hi.h34
@@ -86,7 +92,9 @@ theorem recv_sim_app {s : Side} {env : Env} {c : Conn} {f : Msg} {n : Int}
     · rcases hpd with hpd | hpd
       · have hh := recv_tooLow (env := env) hc hi hl3 (Or.inr (Or.inr (Or.inr ⟨hst, hpd⟩))) h4 hn
         have ee : arecv (absConn c) ⟨n, .app (payloadOf f) (f.get? tPossDupFlag == some "Y")⟩ =
-            (absConn c).dropLogout := by simp [arecv, absConn_e, ha, hn, hpd, AKind.pd]
+            (absConn c).dropLogout := by
+          have : (f.get? tPossDupFlag == some "Y") = false := by simpa using hpd
+          simp [arecv, absConn_e, ha, hn, this, AKind.pd]
         rw [ee]; exact hh
       · have hh := recv_app_dup_awaiting (env := env) hc hi hst hA h2 h4 h5 h0 h1 hpd hn
         have hn1 : ¬ n > c.sess.nextIn := by omega
@@ -147,7 +155,7 @@ theorem recv_sim_logout {s : Side} {env : Env} {c : Conn} {f : Msg} {n : Int}
       have ee : arecv (absConn c) ⟨n, .logout⟩ = (absConn c).dropLogout := by
         simp [arecv, absConn_e, absSt_sent hst, hn, AKind.pd]
       rw [ee]; exact hh
-    · have hh := recv_tooLow (env := env) hc hi hl3 (Or.inr (Or.inr (Or.inr ⟨hst, hpd⟩))) h4 hn
+    · have hh := recv_tooLow (env := env) hc hi hl3 (Or.inr (Or.inr (Or.inr ⟨hst, ne_Y_of_none hpd⟩))) h4 hn
       have ee : arecv (absConn c) ⟨n, .logout⟩ = (absConn c).dropLogout := by
         simp [arecv, absConn_e, absSt_awaiting hst, hn, AKind.pd]
       rw [ee]; exact hh
